@@ -336,7 +336,42 @@ def runCf (so : StrictOpt) (raw : List (Nat × Option (List Sub))) : String :=
       "strict=" ++ bit strict ++ " a=" ++ "".intercalate auths ++ " r=" ++ ",".intercalate served
   | _, _ => "err:adapt"
 
+/-- ONE site block `a.test:443, b.test:8443 { tls { client_auth … } }` is paired with TWO servers.
+    httpcaddyfile's serversFromPairings sets the sni matcher on the `*ConnectionPolicy` it finds in
+    the block's pile — the SAME object for both servers — so the server handled last (`:8443`,
+    `b.test`) overwrites the matcher the first one was given: both end up with `sni ["b.test"]`. -/
+def multiPortPolicyName (_own last : Bytes) : Bytes := last
+
+/-- the answer of a well-formed `cf2` case -/
+def runCf2 (subs : List Sub) : String :=
+  match parseClientAuth subs with
+  | none => "err:adapt"
+  | some conf =>
+    match provisionPolicyCA (some conf) with
+    | none => "err:provision"
+    | some b =>
+      let a := str "a.test"
+      let bb := str "b.test"
+      let one (label : String) (own other port : Bytes) : String :=
+        let ps : List Policy := [⟨[.sni [multiPortPolicyName own bb]], false, activeBefore (some conf)⟩, ⟨[], false, false⟩]
+        let strict := effectiveStrict none ps
+        let authOf (sni : Bytes) : String :=
+          match choose false ps ⟨sni, fun _ => false⟩ with
+          | .config 0 => authNum b.bits.auth
+          | .config _ => "0"
+          | .dropped _ => "d"
+          | .noMatch => "-"
+        label ++ " strict=" ++ bit strict ++ " a=" ++ authOf own ++ authOf other ++ " r=" ++
+          showServed (serve strict [own] (some own) (own ++ port))
+      one "A" a bb (str ":443") ++ " " ++ one "B" bb a (str ":8443")
+
 def handle : List String → String
+  | ["cf2", subs] =>
+    if subs == "." then runCf2 []
+    else if subs == "" then "bad-op"
+    else match subs.toList.mapM parseSubChar with
+      | some l => runCf2 l
+      | none => "bad-op"
   | ["cf", so, sites] =>
     match parseStrictOpt so, (sites.splitOn ";").mapM parseCfSite with
     | some o, some raw => if distinctNat (raw.map (·.1)) then runCf o raw else "bad-op"
